@@ -36,6 +36,7 @@ DEFAULT = {
     "solver": {},
 }
 TWO = [{"name": "a", "lat": 50.0002, "lon": 10.0003, "z_m": 5.0}, {"name": "b", "lat": 50.0004, "lon": 10.0001, "z_m": 8.0}]
+TWO_NUM = [{"name": "101", "lat": 50.0002, "lon": 10.0003, "z_m": 5.0}, {"name": "1e5", "lat": 50.0004, "lon": 10.0001, "z_m": 8.0}]
 AXES = {
     "closure": [("solver", "closure", v) for v in ("MOSTM", "CONSTANT", "OAAHOC")],
     "precision": [("solver", "precision", "double")],
@@ -49,8 +50,12 @@ AXES = {
     "list-ustar": [("met", "ustar", [0.3, 0.4, 0.5])],
     "list-mol": [("met", "mol", [-50.0, 1e9, 80.0])],
     "list-wind_speed": [("met", "wind_speed", [2.0, 3.0, 4.5])],
-    "timestamps": [("met", "timestamps", ["t0", "t1", "t2"])],
-    "towers": [("towers", None, TWO)],
+    # labels that LOOK like numbers stay the strings they are (a station called "101", a step labelled "1e3" or "007")
+    "timestamps": [("met", "timestamps", ["t0", "t1", "t2"]), ("met", "timestamps", ["20240101", "1e3", "007"])],
+    "towers": [("towers", None, TWO), ("towers", None, TWO_NUM)],
+    # other physical regimes: a low mast in the same domain (domain >> 100 z_m), very smooth and very rough surfaces,
+    # very stable / very unstable stratification (z_m/L = 2.5, -3.3), light turbulence
+    "regime": [("__zm", None, 0.5), ("met", "__z0_only", 2e-4), ("met", "__z0_only", 2.5), ("met", "mol", 2.0), ("met", "mol", -1.5), ("met", "ustar", 0.08)],
     "origin": [("domain", "__no_origin", None)],
     "integers": [("__ints", None, True)],
     "met-defaults": [("met", "__omit", ["mol", "wind_speed", "wind_dir"]), ("met", "__omit", ["mol"]), ("met", "__omit", ["wind_dir"])],
@@ -67,7 +72,7 @@ def apply(devs):
             d["towers"] = copy.deepcopy(val)
         elif sec == "__user_flux":
             user_flux = True
-        elif sec == "__ints":
+        elif sec == "__ints" or sec == "__zm":
             pass  # applied at the end
         elif key == "__z0_only":
             d["met"].pop("ustar", None)
@@ -82,6 +87,10 @@ def apply(devs):
             d["domain"].pop("ref_lon")
         else:
             d[sec][key] = copy.deepcopy(val)
+    for sec, _, val in devs:
+        if sec == "__zm":
+            for t in d["towers"]:
+                t["z_m"] = val * t["z_m"] / 5.0
     if any(sec == "__ints" for sec, _, _ in devs):
         # every whole number written as an integer (what yaml.safe_load returns for `wind_speed: 3`, `xmax: 80`, `z_m: 5`, `halo: 20`)
         def ints(o):
@@ -157,6 +166,16 @@ def case_config(case):
             v.append({"sub": "yaml", "sig": "yaml", "msg": "load_config(yaml.safe_dump(d)) != parse_config_dict(d); %s" % lab})
     finally:
         os.unlink(path)
+    # labels are taken over as given (same value AND same type), from the dictionary and from the file
+    for which, c_ in (("dictionary", cfg), ("YAML file", cfg2)):
+        got_names = [t.name for t in c_.towers]
+        want_names = [t["name"] for t in raw["towers"]]
+        if [(type(a), a) for a in got_names] != [(type(a), a) for a in want_names]:
+            v.append({"sub": "labels", "sig": "labels/tower-names", "msg": "tower names %r parsed from the %s as %r; %s" % (want_names, which, got_names, lab)})
+        if "timestamps" in raw["met"]:
+            got_ts = [c_.met.get_step(i)["timestamp"] for i in range(c_.met.n_timesteps)]
+            if [(type(a), a) for a in got_ts] != [(type(a), a) for a in raw["met"]["timestamps"]]:
+                v.append({"sub": "labels", "sig": "labels/timestamps", "msg": "timestamps %r parsed from the %s as %r; %s" % (raw["met"]["timestamps"], which, got_ts, lab)})
     q_user = None
     if user_flux:
         q_user = core.case_rng(0, "c13-user-flux").random((cfg.domain.ny, cfg.domain.nx)) + np.arange(cfg.domain.nx)[None, :]
